@@ -18,6 +18,10 @@ import (
 
 const groundK = 3
 
+// replayCompCount: number of heap components a function's verification condition had before the replay machinery
+// evaluated extra specification instances (which may register more).
+var replayCompCount = map[*FnCtx]int{}
+
 // heapTypingAxioms renders (1) for the components the function's script declares.
 func (fc *FnCtx) heapTypingAxioms(small bool) string {
 	var b strings.Builder
@@ -31,7 +35,10 @@ func (fc *FnCtx) heapTypingAxioms(small bool) string {
 			}
 		}
 	}
-	for _, k := range fc.compList {
+	for i, k := range fc.compList {
+		if n := replayCompCount[fc]; n > 0 && i >= n {
+			break // components registered only by the replay's own precondition instances: no axioms (they slow E-matching down)
+		}
 		srt := fc.comps[k]
 		h := compInit(k)
 		var cell, vars, pat string
@@ -466,8 +473,8 @@ func (m *modelReader) refinePreconditions(spec *FuncSpec) (instances int, kept b
 						}
 					}
 					l, h := lv.Int64(), hv.Int64()
-					if h-l > 48 {
-						h = l + 48
+					if h-l > 12 {
+						h = l + 12 // longer ranges are instantiated on their first elements only
 					}
 					for k := l; k < h && budget > 0; k++ {
 						s2 := map[string]Expr{}
@@ -561,20 +568,10 @@ func (fc *FnCtx) groundPreconditions(spec *FuncSpec) (asserts string, prefer str
 			pr = append(pr, "(assert "+t+")")
 		}
 	}
-	// declarations the evaluation may have added
+	// Sorts, heap components and functions the evaluation may have registered are declared by the preamble, PROVIDED the
+	// query is rendered after this call (genericReplay does); only definitions emitted into the script are returned here.
+	_, _, _, _ = nComp, nUF, nDecl, nExtra
 	var decl []string
-	for _, d := range fc.tc.decls[nDecl:] {
-		decl = append(decl, d)
-	}
-	for _, k := range fc.compList[nComp:] {
-		decl = append(decl, fmt.Sprintf("(declare-const %s %s)", compInit(k), fc.comps[k]))
-	}
-	for _, u := range fc.ufList[nUF:] {
-		decl = append(decl, fmt.Sprintf("(declare-fun %s %s)", u, fc.ufs[u]))
-	}
-	for _, d := range fc.tc.extraDecls[nExtra:] {
-		decl = append(decl, d)
-	}
 	for _, it := range fc.script[nScript:] {
 		if it.ob == nil {
 			decl = append(decl, it.cmd)
